@@ -85,6 +85,23 @@ def legacy2_stages(ctx, quick, hit_props=None):
     ctx.correspond("legacy2", 400 if quick else 8000, nontrivial=nontrivial, shrink=False, seed_offset=21, hit_props=hit_props)
     ctx.correspond("legacy2", 30 if quick else 400, name="legacy2-overflow", args={"stream": "overflow"}, nontrivial=nontrivial,
                    shrink=False, seed_offset=23, hit_props=hit_props)
+    # every branch of the scorer / entry points was reached (value-independent: distinct values per summand, named branches)
+    dist = ctx.cov["distribution"]
+    def distinct(prefix):
+        return len([k for k, v in dist.items() if k.startswith("legacy2.legacy2." + prefix + ":") and v > 0])
+    need_distinct = {"cmd": 5, "domain": 2, "keyword": 3, "desc": 3, "tag": 3, "category": 8}
+    need_tags = ["word-boost-absent", "word-boost-positive", "word-boost-zero", "word-boost-negative", "word-too-short",
+                 "niche-boost-present", "niche-boost-absent", "niche-boost-negative", "completeness-bonus", "bonus-direct", "bonus-command",
+                 "bonus-none", "score-negative", "score-zero", "score-positive", "platform-excluded", "platform-cross-platform-tool",
+                 "platform-cross-platform-tag", "platform-declares-platform-in-force", "platform-no-platform-declared", "query-no-words",
+                 "query-upper-case", "query-non-ascii", "query-invalid-utf8", "swf-good-exact", "swf-combined", "swf-exact-only",
+                 "swf-typo-result-returned", "swn-nlp-off", "swn-shared-searcher", "swn-temporary-searcher", "combine-dropped-duplicates",
+                 "sug-nonempty", "pfz-nonempty"]
+    missing = ["distinct %s values %d < %d" % (k, distinct(k), n) for k, n in need_distinct.items() if distinct(k) < n]
+    missing += [t for t in need_tags if dist.get("legacy2.legacy2." + t, 0) == 0]
+    if dist.get("legacy2-overflow.legacy2.score-saturated", 0) == 0:
+        missing.append("overflow stream never saturated a score")
+    ctx.oblige("coverage:legacy2-branches", "coverage", not missing, "all scorer / entry-point branches reached" if not missing else "not reached: " + ", ".join(missing))
 
 
 def nontrivial(tags, ops, impl):
